@@ -152,8 +152,8 @@ func (rc *reqCase) nontrivial() bool {
 
 type parsed struct {
 	Method, URL, RequestURI, Proto, Host, Body string
-	Major, Minor                             int
-	Header                                   map[string][]string
+	Major, Minor                               int
+	Header                                     map[string][]string
 }
 
 func headerMultiset(h http.Header) map[string][]string {
